@@ -172,6 +172,9 @@ func semDiffers(c *Case, want, impl string) bool {
 	if strings.Contains(c.Req, "(global ") {
 		semStats["with a global, semantics:"+wf[0]]++
 	}
+	if strings.Contains(c.Req, "7b63737320") || strings.Contains(c.Req, "7b64656275676765727d") { // "{css ", "{debugger}"
+		semStats["with {css} / {debugger}, semantics:"+wf[0]]++
+	}
 	if strings.Contains(c.Req, "7b706c7572616c20") { // "{plural "
 		semStats["with {plural}, semantics:"+wf[0]]++
 	}
@@ -218,7 +221,7 @@ func init() {
 	}
 	register(&Prop{
 		ID: "C04sem",
-		Rule: "validation of the trusted JavaScript semantics: generated files ({msg} without a bundle — text, HTML tags, print and call placeholders, {plural} — among the commands) — an entry template and, in half of them, one or two templates it calls ({call} with value and content params, no data / data=\"all\" / data=\"$m\", callees calling callees, calls inside loops and content blocks; the semantics runs the callee's translated body as the callee oracle) — of the command fragment of Props/C04d (raw text with quotes, backslashes and HTML-special bytes; prints of int / string / bool expressions with no directive, |id, |noAutoescape, |escapeHtml under the three autoescape settings; let (value and content blocks) with fresh and SHADOWING names; if/elseif/else; foreach with and without ifempty over list parameters and map fields, for over range(…) with one to three arguments (positive literal step), switch on ints / strings with labels of both types, loop variables shadowing parameters, index / isFirst / isLast of the enclosing loops' variables; " +
+		Rule: "validation of the trusted JavaScript semantics: generated files ({msg} without a bundle — text, HTML tags, print and call placeholders, {plural} —, {css}, {debugger} among the commands) — an entry template and, in half of them, one or two templates it calls ({call} with value and content params, no data / data=\"all\" / data=\"$m\", callees calling callees, calls inside loops and content blocks; the semantics runs the callee's translated body as the callee oracle) — of the command fragment of Props/C04d (raw text with quotes, backslashes and HTML-special bytes; prints of int / string / bool expressions with no directive, |id, |noAutoescape, |escapeHtml under the three autoescape settings; let (value and content blocks) with fresh and SHADOWING names; if/elseif/else; foreach with and without ifempty over list parameters and map fields, for over range(…) with one to three arguments (positive literal step), switch on ints / strings with labels of both types, loop variables shadowing parameters, index / isFirst / isLast of the enclosing loops' variables; " +
 			"expressions: $ij references (the injected data, also inside callees) and scalar compile-time globals, + - * % on small ints, string concatenation, comparisons, same-type equality, and/or/not, ?:, elvis on a nullable, .k / ?.k / [i] accesses, length, isNonnull, floor/ceiling/round/min/max) x 3 data sets (one of them with missing map fields, null and undefined values, empty lists: TypeErrors and ifempty branches); " +
 			"soyjs.Write's statement text and its run in otto versus renderStmts(toCmds) and its run under Spec/JsStmt.execStmts in the driver, from the same data: text byte for byte, and the completion (output string / TypeError) wherever the semantics is not `unspec`; plus hand-written cases; non-trivial = the engine returns a non-empty string or throws",
 		Gen:         genC04sem,
@@ -659,6 +662,18 @@ func (g *semGen) cmd(d int) string {
 	if g.r.Intn(12) == 0 {
 		return g.msg(d)
 	}
+	if g.r.Intn(25) == 0 {
+		// {css}: the name, or `value + '-' + name`, unescaped; {debugger}: nothing
+		switch g.r.Intn(4) {
+		case 0:
+			return "{css " + g.r.Pick([]string{"foo", "a-b", "Zx0"}) + "}"
+		case 1:
+			return "{css " + g.strE(0) + ", " + g.r.Pick([]string{"foo", "bar-x"}) + "}"
+		case 2:
+			return "{css " + g.intE(1) + ", n}"
+		}
+		return "{debugger}"
+	}
 	k := g.r.Intn(10)
 	if d <= 0 && k >= 6 {
 		k = g.r.Intn(6)
@@ -948,6 +963,8 @@ var semHands = []struct{ src, data string }{
 	// {plural} without a bundle: the explicit case, else the default
 	{"{namespace sem}\n/** @param n\n @param s */\n{template .t}\n{msg desc=\"d\"}{plural $n}{case 0}none{case 4}four <b>{$s}</b>{default}{$n} things{/plural}{/msg}|{msg desc=\"e\"}{plural $n + 1}{case 1}one{default}many{/plural}{/msg}\n{/template}\n", "(m (6e (i 4)) (73 (s 3c26)))"},
 	{"{namespace sem}\n/** @param n\n @param s */\n{template .t}\n{msg desc=\"d\"}{plural $n}{case 0}none{case 4}four <b>{$s}</b>{default}{$n} things{/plural}{/msg}|{msg desc=\"e\"}{plural $n + 1}{case 1}one{default}many{/plural}{/msg}\n{/template}\n", "(m (6e (i 0)) (73 (s 78)))"},
+	// {css}: unescaped name / value-name; {debugger}
+	{"{namespace sem}\n/** @param s\n @param n */\n{template .t}\n<{css foo}|{css $s, bar}|{css $n + 1, z}|{css null, q}{debugger}>\n{/template}\n", "(m (6e (i 4)) (73 (s 3c26)))"},
 	// raw text with every escape class
 	{"{namespace sem}\n{template .t}\na'b\"c\\d<e>&f=g{sp}{nil}{\\n}{\\t}{lb}{rb}é \n{/template}\n", "(m)"},
 }
